@@ -286,15 +286,22 @@ theorem openStep_unst (cfg : PartCfg) (hc : cfg.html = false) (s s' : DC) (x : X
   · exact withTrue_unst _ s' r (fun t ht => insertNewRun_unst s t _ h ht) he
   · have := pure_ok he; cases this; exact h
 
-theorem closeStep_unst (cfg : PartCfg) (hc : cfg.html = false) (s s' : DC) (x : Xml) (h : Unst s)
-    (he : closeStep cfg s x = .ok s') : Unst s' := by
-  unfold closeStep at he
+theorem closeStepCore_unst (cfg : PartCfg) (hc : cfg.html = false) (s s' : DC) (x : Xml) (h : Unst s)
+    (he : closeStepCore cfg s x = .ok s') : Unst s' := by
+  unfold closeStepCore at he
   rw [hc] at he
   split at he
   · exact concludePar_unst s s' h he
   · exact commenceRun_unst s s' none h he
   · exact closeTableCell_unst cfg.dup s s' x h he
   · have := pure_ok he; subst this; exact h
+
+theorem closeStep_unst (cfg : PartCfg) (hc : cfg.html = false) (s s' : DC) (x : Xml) (h : Unst s)
+    (he : closeStep cfg s x = .ok s') : Unst s' :=
+  closeStep_preserves concludePar_unst cfg x (fun a b ha hb => closeStepCore_unst cfg hc a b x ha hb) s s' h he
+
+theorem setCaretOpen_unst (s s' : DC) (d : Option Nat) (n : Option Str) (h : Unst s) (he : s.setCaretOpen d n = .ok s') : Unst s' :=
+  setCaretOpen_preserves concludePar_unst (fun a b d n ha hb => unst_of_frame a b (setCaret_frame a b d n hb) ha) s s' d n h he
 
 theorem finish_unst (cfg : PartCfg) (hc : cfg.html = false) (s s' : DC) (h : Unst s) (he : finish cfg s = .ok s') : Unst s' := by
   unfold finish at he
@@ -312,7 +319,7 @@ theorem walk_unst (cfg : PartCfg) (hc : cfg.html = false) (num : Dict Str (List 
   | .elem i p t m a tx tl ks, c, s, s', hs, h => by
     simp only [walk] at h
     obtain ⟨s1, h1, h⟩ := bind_ok h
-    have u1 := unst_of_frame s s1 (setCaret_frame s s1 _ _ h1) hs
+    have u1 := setCaretOpen_unst s s1 _ _ hs h1
     obtain ⟨roots, _, h⟩ := bind_ok h
     obtain ⟨⟨s2, rec⟩, h2, h⟩ := bind_ok h
     have u2 : Unst s2 := openStep_unst cfg hc s1 s2 _ c roots rec u1 h2
